@@ -5,20 +5,20 @@ From TL Require Import Lib.Base Lib.GenTypes Gen.OrchHistGen Model.OrchHist Mode
 
 Definition x_dirs : list (nat * list nat) := [(0, [0; 1; 2; 3]); (1, [0; 1]); (2, [2; 3])].
 Definition x_fs : fsys := [(0, 0); (1, 1); (2, 2); (3, 3)].
-Definition only_api : oquirks := Build_oquirks false false false false true.
-Definition only_dry10 : oquirks := Build_oquirks true false false false false.
+Definition only_api : oquirks := Build_oquirks false false false false true false false.
+Definition only_dry10 : oquirks := Build_oquirks true false false false false false false.
 
 (* q_api_file_no_finalize: Linter.lint(file) and `thailint <cmd> file` return the same, finalize() findings included *)
 Example C10_api_file_regression :
-  sym_cli [] [] 9 x_dirs orch_actual x_fs [0] [] = [sym_api [] [] 9 x_dirs orch_actual x_fs (TFile 0)]
-  /\ sym_cli [] [] 9 x_dirs only_api x_fs [0] [] = [sym_api [] [] 9 x_dirs only_api x_fs (TFile 0)]
-  /\ sym_cli [] [] 9 x_dirs orch_actual x_fs [0] [] = [Build_out [TPer 0 (Some 0)] [TRep 0 1 [(0, 0)]] [TRep 1 0 [(0, 0)]] [TRep 2 0 [(0, 0)]]].
+  sym_cli [] [] 9 8 x_dirs orch_actual x_fs [0] [] = [sym_api [] [] 9 8 x_dirs orch_actual x_fs (TFile 0)]
+  /\ sym_cli [] [] 9 8 x_dirs only_api x_fs [0] [] = [sym_api [] [] 9 8 x_dirs only_api x_fs (TFile 0)]
+  /\ sym_cli [] [] 9 8 x_dirs orch_actual x_fs [0] [] = [Build_out [TPer 0 (Some 0); TFp 0 (Some 0)] [TRep 0 1 0 [(0, 0)]] [TRep 1 0 0 [(0, 0)]] [TRep 2 0 0 [(0, 0)]]].
 Proof. repeat split; vm_compute; reflexivity. Qed.
 
 (* q_dry_keeps_storage: two directory arguments are reported like Linter.lint on each directory *)
 Example C10_cli_two_dirs_regression :
-  sym_cli [] [] 9 x_dirs orch_actual x_fs [] [(1, [0; 1]); (2, [2; 3])]
-  = map (sym_api [] [] 9 x_dirs orch_actual x_fs) [TDir 1 [0; 1]; TDir 2 [2; 3]]
-  /\ sym_cli [] [] 9 x_dirs only_dry10 x_fs [] [(1, [0; 1]); (2, [2; 3])]
-  = map (sym_api [] [] 9 x_dirs only_dry10 x_fs) [TDir 1 [0; 1]; TDir 2 [2; 3]].
+  sym_cli [] [] 9 8 x_dirs orch_actual x_fs [] [(1, [0; 1]); (2, [2; 3])]
+  = map (sym_api [] [] 9 8 x_dirs orch_actual x_fs) [TDir 1 [0; 1]; TDir 2 [2; 3]]
+  /\ sym_cli [] [] 9 8 x_dirs only_dry10 x_fs [] [(1, [0; 1]); (2, [2; 3])]
+  = map (sym_api [] [] 9 8 x_dirs only_dry10 x_fs) [TDir 1 [0; 1]; TDir 2 [2; 3]].
 Proof. split; vm_compute; reflexivity. Qed.
